@@ -196,7 +196,7 @@ class DictWorld(HistoryWorld):
                 op['acc'] = bytes(rng.getrandbits(8) for _ in range(32)).hex()
             return op
         if r < 0.74:
-            kind = rng.choice(['too_large', 'too_large_by_one', 'negative', 'negative_big', 'long_bits', 'long_bytes'])
+            kind = rng.choice(['too_large', 'too_large_by_one', 'negative', 'negative_big', 'long_bits', 'long_bytes', 'negative_bits_exact', 'negative_bits_short', 'negative_bits_full'])
             return {'op': 'set_invalid', 'kind': kind, 'x': rng.getrandbits(16), 'v': rng.getrandbits(16)}
         if r < 0.78:
             return {'op': 'new'}
@@ -266,6 +266,10 @@ class DictWorld(HistoryWorld):
             key = -(1 << n) - x
         elif kind == 'long_bits':
             key = '1' + bin(x)[2:].zfill(n)[:n]
+        elif kind in ('negative_bits_exact', 'negative_bits_short', 'negative_bits_full'):
+            # a signed bit string denotes a negative key, whatever its length (sign included) is relative to the width
+            m = {'negative_bits_exact': max(n - 1, 1), 'negative_bits_short': max(min(n - 1, 1 + x % 8), 1), 'negative_bits_full': n}[kind]
+            key = '-' + bin((x % (1 << min(m, 16))) | 1)[2:].zfill(m)[-m:]
         else:
             key = b'\x01' + bytes((n + 7) // 8)
         if st.kser:
